@@ -82,6 +82,9 @@ def main() -> int:
             per[name] = {"scenarios": len(scs), "tlc_distinct": r.distinct, "placeholders": nph, "depth": depth}
             gens += [("%s:%d" % (name, i), sc) for i, sc in enumerate(scs)]
         decks = corpus.decks() if thorough else corpus.subset(24, E.seed())
+        # + a generated deck whose slide part names are out of order with a gap (slide3, slide1, slide4) and that has notes pages
+        from mbt.drive import readonly as RO
+        decks = decks + [p for p in RO.gen_decks(os.path.join(work, "gen")) if "permuted" in p]
         corp = [("corpus:" + os.path.basename(p), p) for p in decks]
     gt = E.pmap(_gen, gens, procs=16, chunk=8)
     ct = E.pmap(_corpus, corp, procs=16, chunk=1)
